@@ -7,10 +7,12 @@ mod c09;
 mod c10;
 mod c03;
 mod c04;
+mod c04s;
 mod c05;
 mod c05b;
 mod c06;
 mod c07;
+mod c07d4;
 mod c11;
 mod c20;
 mod c12;
